@@ -169,11 +169,12 @@ theorem alfidOf_minimal (a s f : Nat) (hok : AlfidOk f) (hf : Fits f a s) :
 theorem api_signature_agrees :
     Gen.C01Api.sigs = UdsClientApi.sigs ∧ Gen.C01Api.classSigs = UdsClientApi.classSigs := by decide +kernel
 
-/-- (T) which class every method body constructs, which expression it passes for which constructor parameter, which method
-    every helper delegates to with which arguments, and the statements of `ECU.transmit_data` are the modelled ones -/
+/-- (T) which class every method body constructs, which expression it passes for which constructor parameter, that a service
+    method does nothing else, which method every helper delegates to with which arguments, and the statements of
+    `ECU.transmit_data` are the modelled ones -/
 theorem api_sites_agree :
     Gen.C01Api.ctorSites = UdsClientApi.ctorSites ∧ Gen.C01Api.callSites = UdsClientApi.callSites ∧
-    Gen.C01Api.transmitBody = UdsClientApi.transmitBody := by decide +kernel
+    Gen.C01Api.bodies = UdsClientApi.bodies ∧ Gen.C01Api.transmitBody = UdsClientApi.transmitBody := by decide +kernel
 
 /-- (T) method name -> (service id, sub-function) as the live classes have it = the ISO 14229-1 table of the model -/
 theorem api_table_agrees : Gen.C01Api.wire = wireTable := by decide +kernel
